@@ -128,6 +128,8 @@ type Interp struct {
 	stack      []string
 	initDepth  int
 	bulkTpl    map[*ssa.Alloc]array
+	pcLits     map[int]bool // term IDs of literals on the path condition
+	pcSeen     int
 }
 
 type pathEnd struct {
@@ -298,6 +300,8 @@ func (in *Interp) resetPath() {
 	in.bigMat = nil
 	in.stack = nil
 	in.initDepth = 0
+	in.pcLits = nil
+	in.pcSeen = 0
 }
 
 func (in *Interp) runPath(fn *ssa.Function) (end pathEnd) {
@@ -393,6 +397,13 @@ func (in *Interp) fork(alts []*smt.Term, label string) int {
 	if in.cfg.Concrete != nil {
 		panic(fmt.Sprintf("fork on symbolic condition in concrete mode: %s: %s", label, alts[0]))
 	}
+	// literals already on the path condition decide the fork without the solver (deterministic, so re-execution agrees)
+	in.indexPC()
+	for i, a := range alts {
+		if in.pcLits[a.ID] {
+			return i
+		}
+	}
 	if in.pos < len(in.decisions) {
 		d := in.decisions[in.pos]
 		if in.pos >= in.replayRegions-1 {
@@ -406,7 +417,7 @@ func (in *Interp) fork(alts []*smt.Term, label string) int {
 	}
 	var feas []int
 	for i, a := range alts {
-		if a.IsFalse() {
+		if a.IsFalse() || in.pcLits[in.ctx.Not(a).ID] {
 			continue
 		}
 		// last alternative is feasible for free if nothing else was (PC is satisfiable and alts are exhaustive)
@@ -436,6 +447,25 @@ func (in *Interp) fork(alts []*smt.Term, label string) int {
 	in.pc = append(in.pc, alts[d.taken])
 	in.noteBound(alts[d.taken])
 	return d.taken
+}
+
+// indexPC records the literals (conjuncts) of the path condition added since the last call.
+func (in *Interp) indexPC() {
+	if in.pcLits == nil {
+		in.pcLits = map[int]bool{}
+	}
+	var add func(t *smt.Term)
+	add = func(t *smt.Term) {
+		in.pcLits[t.ID] = true
+		if t.Op == "and" {
+			for _, a := range t.A {
+				add(a)
+			}
+		}
+	}
+	for ; in.pcSeen < len(in.pc); in.pcSeen++ {
+		add(in.pc[in.pcSeen])
+	}
 }
 
 // branch decides a boolean condition.
